@@ -127,7 +127,8 @@ def run():
         tmp = tempfile.mkdtemp(prefix='verif_flip_')
         try:
             for fn in os.listdir(base):
-                shutil.copy(os.path.join(base, fn), tmp)
+                if os.path.isfile(os.path.join(base, fn)):
+                    shutil.copy(os.path.join(base, fn), tmp)
             with open(os.path.join(tmp, 'Engine.tla'), 'w') as f:
                 f.write(text.replace(old, new))
             tlc.SPEC_DIR = tmp
